@@ -1861,4 +1861,221 @@ theorem C04_dqstring_lexes_mindsdb (items : List DqItem) (hok : ∀ it ∈ items
     lex LexRe_mindsdb.cfg (dqText items) = .ok [.tok "DQUOTE_STRING" false (dqText items)] :=
   C04_dqstring_lexes_dot _ classOKdq_live.2.2 dqAnyIsDot_live.2.2 items hok
 
+/-! ### every printed identifier path — plain and back-quoted parts mixed — lexes to `ID (DOT ID)*` -/
+
+theorem bqSet_mem_ne {x : Nat} (h : x ≠ 96) : bqSet.mem x = false := by
+  unfold bqSet
+  by_cases h1 : x < 96
+  · have : Nat.blt x 96 = true := by rw [Nat.blt_eq]; exact h1
+    simp [CSet.mem, this]
+  · have a : Nat.blt x 96 = false := by
+      cases ha : Nat.blt x 96 with
+      | false => rfl
+      | true => rw [Nat.blt_eq] at ha; omega
+    have b : Nat.ble x 96 = false := by
+      cases hb : Nat.ble x 96 with
+      | false => rfl
+      | true => have := Nat.le_of_ble_eq_true hb; omega
+    simp [CSet.mem, a, b]
+
+/-- a back-quoted name inside a text (or at its end): whatever follows must not start with a back-quote -/
+theorem C04_quoted_is_ID_at (c : Cfg) (hc : classOKbq c = true) (pre body rest : List Nat) (hne : body ≠ [])
+    (hcp : ∀ x ∈ body, x ≤ 1114111) (hrest : ∀ x t, rest = x :: t → x ≠ 96) :
+    ∃ idr, idr.name = "ID" ∧ idr.ignored = false ∧
+      firstMatch c.word c.rules ⟨pre, 96 :: (bqBody 96 body ++ 96 :: rest)⟩
+        = some (idr, ⟨96 :: ((bqBody 96 body).reverse ++ 96 :: pre), rest⟩) := by
+  unfold classOKbq at hc
+  cases hs : splitAtID c.rules with
+  | none => rw [hs] at hc; cases hc
+  | some x =>
+    obtain ⟨prer, idr, post⟩ := x
+    rw [hs] at hc
+    simp only [Bool.and_eq_true, List.all_eq_true, Bool.not_eq_true'] at hc
+    obtain ⟨⟨⟨hpre, hign⟩, hid⟩, _⟩ := hc
+    obtain ⟨erules, ename⟩ := splitAtID_spec hs
+    have hq96 : inSet bqSet 96 := ⟨(96, 96), List.mem_cons_self, Nat.le_refl _, Nat.le_refl _⟩
+    have hnone : ∀ r ∈ prer, matchAt c.word r.re ⟨pre, 96 :: (bqBody 96 body ++ 96 :: rest)⟩ = none := by
+      intro r hr
+      have := hpre r hr
+      exact matchAt_none_of_first this.1 this.2 (p := ⟨pre, 96 :: (bqBody 96 body ++ 96 :: rest)⟩) rfl hq96
+    cases hsh : idShape2 idr.re with
+    | none => rw [hsh] at hid; cases hid
+    | some t4 =>
+      obtain ⟨A, B, Q, N⟩ := t4
+      rw [hsh] at hid
+      simp only [Bool.and_eq_true, Bool.not_eq_true', beq_iff_eq] at hid
+      obtain ⟨⟨⟨hA, hB⟩, hQ⟩, hN⟩ := hid
+      subst hQ; subst hN
+      have ere := idShape2_spec hsh
+      have hok : BqOK bqSet notBqSet 96 body :=
+        ⟨by decide, by decide, fun x hx hne => notBq_mem hne (hcp x hx)⟩
+      refine ⟨idr, ename, hign, ?_⟩
+      rw [erules, firstMatch_skip prer _ hnone]
+      unfold firstMatch
+      have hidm : matchAt c.word idr.re ⟨pre, 96 :: (bqBody 96 body ++ 96 :: rest)⟩
+          = some ⟨96 :: ((bqBody 96 body).reverse ++ 96 :: pre), rest⟩ := by
+        rw [ere]
+        unfold matchAt
+        rw [m_alt]
+        have h1 := idCore_none_head c.word A B pre 96 (bqBody 96 body ++ 96 :: rest) hA hB
+        have h2 := bqRe_match_rest c.word bqSet notBqSet 96 rest (fun x t e => bqSet_mem_ne (hrest x t e)) body hne hok pre
+        unfold matchAt at h1 h2
+        rw [h1, h2]
+        rfl
+      rw [hidm]
+
+inductive Part where
+  | plain (w : List Nat)
+  | quoted (body : List Nat)
+  deriving Repr
+
+def Part.text : Part → List Nat
+  | .plain w => w
+  | .quoted b => 96 :: (bqBody 96 b ++ [96])
+
+/-- what `parts_to_str` prints: a plain part that is no keyword word as it is, anything else (non-empty) back-quoted -/
+def PartOK (c : Cfg) : Part → Prop
+  | .plain w => PlainWord w ∧ isKw c w = false
+  | .quoted b => b ≠ [] ∧ ∀ x ∈ b, x ≤ 1114111
+
+def mpathText : List Part → List Nat
+  | [] => []
+  | [p] => p.text
+  | p :: r => p.text ++ 46 :: mpathText r
+
+def mpathSegs : List Part → List Seg
+  | [] => []
+  | [p] => [.tok "ID" false p.text]
+  | p :: r => .tok "ID" false p.text :: .tok "DOT" false [46] :: mpathSegs r
+
+theorem part_firstMatch (c : Cfg) (hc : classOK c = true) (hbq : classOKbq c = true) (hst : stopOK c 46 = true)
+    (p : Part) (hp : PartOK c p) (pre : List Nat) (rest : List Nat) (hr : rest = [] ∨ ∃ t, rest = 46 :: t) :
+    ∃ idr, idr.name = "ID" ∧ idr.ignored = false ∧
+      firstMatch c.word c.rules ⟨pre, p.text ++ rest⟩ = some (idr, ⟨p.text.reverse ++ pre, rest⟩) := by
+  cases p with
+  | plain w =>
+    obtain ⟨hw, hk⟩ := hp
+    rcases hr with h0 | ⟨t, h0⟩
+    · subst h0
+      obtain ⟨idr, a, b, h⟩ := C04_word_is_ID_end c hc pre w hw hk
+      exact ⟨idr, a, b, by simpa [Part.text] using h⟩
+    · subst h0
+      obtain ⟨idr, a, b, h⟩ := C04_word_is_ID_at c hc 46 hst pre w t hw hk
+      exact ⟨idr, a, b, by simpa [Part.text] using h⟩
+  | quoted body =>
+    obtain ⟨hne, hcp⟩ := hp
+    have hrest : ∀ x t, rest = x :: t → x ≠ 96 := by
+      intro x t e
+      rcases hr with h0 | ⟨t', h0⟩
+      · rw [h0] at e; cases e
+      · rw [h0] at e; cases e; decide
+    obtain ⟨idr, a, b, h⟩ := C04_quoted_is_ID_at c hbq pre body rest hne hcp hrest
+    refine ⟨idr, a, b, ?_⟩
+    simpa [Part.text] using h
+
+theorem part_head (c : Cfg) (hc : classOK c = true) (hbq : classOKbq c = true) (p : Part) (hp : PartOK c p) :
+    ∃ c0 t0, p.text = c0 :: t0 ∧ c.ignore.mem c0 = false := by
+  cases p with
+  | plain w =>
+    obtain ⟨⟨_, c0, t0, ew, hlet⟩, _⟩ := hp
+    refine ⟨c0, t0, ew, ?_⟩
+    have hignL : disjointR c.ignore letterSet = true := by
+      unfold classOK at hc
+      cases hs : splitAtID c.rules with
+      | none => rw [hs] at hc; cases hc
+      | some x => rw [hs] at hc; simp only [Bool.and_eq_true] at hc; exact hc.2
+    cases h : c.ignore.mem c0 with
+    | false => rfl
+    | true => exact (disjointR_sound hignL (mem_sound h) hlet).elim
+  | quoted body =>
+    refine ⟨96, bqBody 96 body ++ [96], rfl, ?_⟩
+    have hig : disjointR c.ignore bqSet = true := by
+      unfold classOKbq at hbq
+      cases hs : splitAtID c.rules with
+      | none => rw [hs] at hbq; cases hbq
+      | some x => rw [hs] at hbq; simp only [Bool.and_eq_true] at hbq; exact hbq.2
+    cases h : c.ignore.mem 96 with
+    | false => rfl
+    | true =>
+      exact (disjointR_sound hig (mem_sound h) ⟨(96, 96), List.mem_cons_self, Nat.le_refl _, Nat.le_refl _⟩).elim
+
+open MindsVerif.Props.C02Lex in
+theorem mpath_steps (c : Cfg) (hc : classOK c = true) (hbq : classOKbq c = true) (hdot : classOKdot c = true)
+    (hst : stopOK c 46 = true) :
+    ∀ (ps : List Part), ps ≠ [] → (∀ p ∈ ps, PartOK c p) →
+    ∀ (pre : List Nat), ∃ e, e.suf = [] ∧ Steps c ⟨pre, mpathText ps⟩ (mpathSegs ps) e := by
+  have hign46 : c.ignore.mem 46 = false := by
+    unfold classOKdot at hdot
+    cases hs : splitAt "DOT" c.rules with
+    | none => rw [hs] at hdot; cases hdot
+    | some x => rw [hs] at hdot; simp only [Bool.and_eq_true, Bool.not_eq_true'] at hdot; exact hdot.2
+  intro ps
+  induction ps with
+  | nil => intro h; exact absurd rfl h
+  | cons p r ih =>
+    intro _ hall pre
+    have hp := hall p List.mem_cons_self
+    obtain ⟨c0, t0, ew, hig0⟩ := part_head c hc hbq p hp
+    cases r with
+    | nil =>
+      obtain ⟨idr, hn, hi, hfm⟩ := part_firstMatch c hc hbq hst p hp pre [] (Or.inl rfl)
+      simp only [List.append_nil] at hfm
+      refine ⟨⟨p.text.reverse ++ pre, []⟩, rfl, ?_⟩
+      have hs : Step c ⟨pre, p.text⟩ (.tok idr.name idr.ignored (between ⟨pre, p.text⟩ ⟨p.text.reverse ++ pre, []⟩))
+          ⟨p.text.reverse ++ pre, []⟩ :=
+        Step.tok ⟨pre, p.text⟩ c0 t0 idr _ ew hig0 hfm (by rw [ew]; simp)
+      have hb : between ⟨pre, p.text⟩ ⟨p.text.reverse ++ pre, []⟩ = p.text := by
+        have := between_adv pre p.text []; simpa using this
+      rw [hn, hi, hb] at hs
+      exact Steps.cons hs (Steps.nil _)
+    | cons p2 r2 =>
+      obtain ⟨idr, hn, hi, hfm⟩ := part_firstMatch c hc hbq hst p hp pre (46 :: mpathText (p2 :: r2)) (Or.inr ⟨_, rfl⟩)
+      obtain ⟨dr, hdn, hdi, hdfm⟩ := dot_firstMatch c hdot (p.text.reverse ++ pre) (mpathText (p2 :: r2))
+      obtain ⟨e, he, hrest⟩ := ih (by simp) (fun x hx => hall x (List.mem_cons_of_mem _ hx)) (46 :: (p.text.reverse ++ pre))
+      refine ⟨e, he, ?_⟩
+      have hs1 : Step c ⟨pre, p.text ++ 46 :: mpathText (p2 :: r2)⟩
+          (.tok idr.name idr.ignored (between ⟨pre, p.text ++ 46 :: mpathText (p2 :: r2)⟩ ⟨p.text.reverse ++ pre, 46 :: mpathText (p2 :: r2)⟩))
+          ⟨p.text.reverse ++ pre, 46 :: mpathText (p2 :: r2)⟩ :=
+        Step.tok _ c0 (t0 ++ 46 :: mpathText (p2 :: r2)) idr _ (by rw [ew]; rfl) hig0 hfm (by rw [ew]; simp <;> omega)
+      rw [hn, hi, between_adv pre p.text (46 :: mpathText (p2 :: r2))] at hs1
+      have hs2 : Step c ⟨p.text.reverse ++ pre, 46 :: mpathText (p2 :: r2)⟩
+          (.tok dr.name dr.ignored (between ⟨p.text.reverse ++ pre, 46 :: mpathText (p2 :: r2)⟩ ⟨46 :: (p.text.reverse ++ pre), mpathText (p2 :: r2)⟩))
+          ⟨46 :: (p.text.reverse ++ pre), mpathText (p2 :: r2)⟩ :=
+        Step.tok _ 46 (mpathText (p2 :: r2)) dr _ rfl hign46 hdfm (by simp)
+      have hb2 : between ⟨p.text.reverse ++ pre, 46 :: mpathText (p2 :: r2)⟩ ⟨46 :: (p.text.reverse ++ pre), mpathText (p2 :: r2)⟩ = [46] := by
+        have := between_adv (p.text.reverse ++ pre) [46] (mpathText (p2 :: r2)); simpa using this
+      rw [hdn, hdi, hb2] at hs2
+      exact Steps.cons hs1 (Steps.cons hs2 hrest)
+
+/-- **every printed identifier path lexes to `ID (DOT ID)*`**: any number of parts, each either a plain non-keyword word
+printed as it is or ANY non-empty name printed back-quoted (back-quotes doubled) — the lexer side of the identifier round trip
+of `Identifier.parts_to_str`, on the regexes the library compiles -/
+theorem C04_identifier_lexes (c : Cfg) (hc : classOK c = true) (hbq : classOKbq c = true) (hdot : classOKdot c = true)
+    (hst : stopOK c 46 = true) (ps : List Part) (hne : ps ≠ []) (hall : ∀ p ∈ ps, PartOK c p) :
+    lex c (mpathText ps) = .ok (mpathSegs ps) := by
+  obtain ⟨e, he, hs⟩ := mpath_steps c hc hbq hdot hst ps hne hall []
+  exact steps_lex c _ _ e hs he
+
+theorem C04_identifier_lexes_mindsdb (ps : List Part) (hne : ps ≠ []) (hall : ∀ p ∈ ps, PartOK LexRe_mindsdb.cfg p) :
+    lex LexRe_mindsdb.cfg (mpathText ps) = .ok (mpathSegs ps) :=
+  C04_identifier_lexes _ classOK_mindsdb classOKbq_mindsdb classOKdot_live.2.2
+    ((List.all_eq_true.mp stopOK_live.2.2) 46 (by decide)) ps hne hall
+theorem C04_identifier_lexes_mysql (ps : List Part) (hne : ps ≠ []) (hall : ∀ p ∈ ps, PartOK LexRe_mysql.cfg p) :
+    lex LexRe_mysql.cfg (mpathText ps) = .ok (mpathSegs ps) :=
+  C04_identifier_lexes _ classOK_mysql classOKbq_mysql classOKdot_live.2.1
+    ((List.all_eq_true.mp stopOK_live.2.1) 46 (by decide)) ps hne hall
+theorem C04_identifier_lexes_sqlite (ps : List Part) (hne : ps ≠ []) (hall : ∀ p ∈ ps, PartOK LexRe_sqlite.cfg p) :
+    lex LexRe_sqlite.cfg (mpathText ps) = .ok (mpathSegs ps) :=
+  C04_identifier_lexes _ classOK_sqlite classOKbq_sqlite classOKdot_live.1
+    ((List.all_eq_true.mp stopOK_live.1) 46 (by decide)) ps hne hall
+
+/-- example: `` tab1.`my col`.c `` -/
+theorem C04_identifier_example :
+    mpathText [.plain [116, 97, 98, 49], .quoted [109, 121, 32, 99, 111, 108], .plain [99]]
+      = [116, 97, 98, 49, 46, 96, 109, 121, 32, 99, 111, 108, 96, 46, 99] ∧
+    lex LexRe_mindsdb.cfg [116, 97, 98, 49, 46, 96, 109, 121, 32, 99, 111, 108, 96, 46, 99]
+      = .ok [.tok "ID" false [116, 97, 98, 49], .tok "DOT" false [46], .tok "ID" false [96, 109, 121, 32, 99, 111, 108, 96],
+             .tok "DOT" false [46], .tok "ID" false [99]] := by
+  decide +kernel
+
 end MindsVerif.Props.C04Lex
